@@ -62,6 +62,16 @@ CHECKS = {
              "Reflexivity and exception-freedom are checked on every base block.",
         note="Trusted: E1 semantics, z3. The external forves adapter is not exercised (no forves binary in the sandbox): "
              "that clause of the property is outside the claim. Pairs outside the mutation families are not covered."),
+    "C11": dict(
+        level="translation_validation", design="5/C11", engine="E1 EVM-SMT on replayed logs + fresh-process round trip",
+        technique="bounded-exhaustive tamper space; every log the real replay accepts is decided by SMT block equivalence",
+        text="For each block every log over the block's ids plus DUP/SWAP/POP and foreign ids up to length 3 (quick) / 4 "
+             "(thorough), and every single-edit mutant of the genuine log, goes through the real "
+             "optimize_asm_block_from_log and compare_asm_block_asm_format; for every accepted log z3 decides whether any "
+             "machine state separates the rebuilt block from the input. The genuine-log round trip (optimize with -log, "
+             "replay in a fresh process, compare files) is run on shipped documents under two option sets.",
+        note="Trusted: E1, z3. The round trip is concrete validation of the determinism premise, not a solver verdict. "
+             "Logs longer than the bound other than single-edit mutants are outside the claim."),
     "C18": dict(
         level="translation_validation", design="5/C18", engine="z3 over enumerated formula shapes",
         technique="SMT equivalence (z3) of constructed formula, parsed SMT-LIB text and raw tree, for all valuations",
